@@ -213,6 +213,10 @@ func treeCase(g *Gen, tags *[]string) (w.Val, w.Val) {
 	}
 	var keys, qs []k4
 	nk, nq := 1+g.Intn(8), 1+g.Intn(6)
+	if g.Chance(0.2) { // many keys: deep shared prefixes, full sibling sets
+		nk, nq = 9+g.Intn(52), 4+g.Intn(12)
+		*tags = append(*tags, "many-keys")
+	}
 	for len(keys) < nk {
 		if len(keys) > 0 && g.Chance(0.4) {
 			keys = append(keys, dk(keys[g.Intn(len(keys))]))
@@ -428,10 +432,59 @@ func deriveVox(g *Gen, a vox, tags *[]string) vox {
 	b.h, b.x = moveAxis(g, a.h, a.x, dh)
 	_, b.y = moveAxis(g, a.h, a.y, b.h-a.h)
 	b.v, b.f = moveAxis(g, a.v, a.f, dv)
+	if b.v > a.v && a.f < 0 && g.Chance(0.3) { // the finer index is a NEGATIVE EXACT MULTIPLE of 2^d (first child of a negative index)
+		b.f = a.f << uint(b.v-a.v)
+		*tags = append(*tags, "neg-exact-multiple")
+	}
 	if g.Chance(0.35) {
 		b = perturb(g, b, tags)
 	}
 	return b
+}
+
+// a pair (a, b) whose vertical zooms differ by d >= 1 and whose finer vertical index is a negative exact multiple of 2^d: the coarser one
+// is its floor-ancestor -k (related), or -k-1 / -k+1 (not related) — where "divide, then decrement every negative quotient" goes wrong
+func negMultiplePair(g *Gen, tags *[]string) (vox, vox) {
+	*tags = append(*tags, "neg-exact-multiple")
+	a := randVox(g)
+	for a.v == 0 {
+		a = randVox(g)
+	}
+	d := zdiff(g)
+	if d > a.v {
+		d = 1 + g.Int63n(a.v)
+	}
+	cv := a.v - d // coarser vertical zoom
+	var k int64   // the coarser index is -k, 1 <= k <= 2^cv
+	switch g.Intn(4) {
+	case 0:
+		k = 1
+	case 1:
+		k = pow2(cv)
+	default:
+		k = 1 + g.Int63n(pow2(cv))
+	}
+	a.f = -k << uint(d)
+	b := vox{a.h, a.x, a.y, cv, -k}
+	if g.Chance(0.5) { // another horizontal zoom as well
+		var t []string
+		c := deriveVox(g, vox{a.h, a.x, a.y, 0, 0}, &t)
+		if len(t) == 0 || t[len(t)-1] != "perturbed" {
+			b.h, b.x, b.y = c.h, c.x, c.y
+		}
+	}
+	switch g.Intn(5) {
+	case 0:
+		if -k-1 >= -pow2(cv) {
+			b.f = -k - 1
+		}
+	case 1:
+		b.f = -k + 1
+	}
+	if g.Chance(0.5) {
+		return b, a
+	}
+	return a, b
 }
 
 func perturb(g *Gen, b vox, tags *[]string) vox {
@@ -570,8 +623,160 @@ func malformedNear(g *Gen, e vox, sid bool) string {
 
 func pickS(g *Gen, xs ...string) string { return xs[g.Intn(len(xs))] }
 
-// zooms outside 0..35 (kept small: the zoom arithmetic of the models is exact for |zoom| < 300 / spatial zooms up to 63 and beyond)
-func hostileZoom(g *Gen) int64 { return g.Pick(36, 37, 40, 62, 63, 64, 65, 99, -1, -2) }
+// zooms outside 0..35 for the extended form (at most 62: above, the zoom drop can reach 63 and int64(math.Pow(2,|dz|)) saturates — the dispatch refuses such cases)
+func hostileZoom(g *Gen) int64 { return g.Pick(36, 36, 37, 40, 61, 62, -1, -1, -2, -64) }
+
+// the spatial form refuses every zoom outside 0..35 in the altitude-key conversion (no shift is taken): also the int64 extremes
+func hostileSpatialZoom(g *Gen) int64 {
+	return g.Pick(36, 36, 37, 40, 62, 63, 63, 64, 64, 65, 99, 255, 256, 291, -1, -1, -2, -64, 1<<62, -1<<63, 1<<63-1)
+}
+
+// non-canonical numerals that strconv.Atoi accepts ("+3", "007", "-0", "-007"): the SAME voxel, so the case stays inside the quantifier
+func fancy(g *Gen, s string) string {
+	fs := strings.Split(s, "/")
+	changed := false
+	for i, f := range fs {
+		if changed && !g.Chance(0.4) {
+			continue
+		}
+		neg := strings.HasPrefix(f, "-")
+		d := strings.TrimPrefix(f, "-")
+		sign := ""
+		if neg {
+			sign = "-"
+		}
+		switch g.Intn(4) {
+		case 0:
+			if !neg {
+				fs[i] = "+" + d
+			} else {
+				fs[i] = "-0" + d
+			}
+		case 1:
+			fs[i] = sign + "00" + d
+		case 2:
+			if d == "0" {
+				fs[i] = pickS(g, "-0", "+0", "000", "-00")
+			} else {
+				fs[i] = sign + "0" + d
+			}
+		default:
+			if !neg {
+				fs[i] = "+00" + d
+			} else {
+				fs[i] = "-000" + d
+			}
+		}
+		changed = true
+	}
+	return strings.Join(fs, "/")
+}
+func fancyLists(g *Gen, s1, s2 []string, tags *[]string) {
+	if !g.Chance(0.07) || len(s1)+len(s2) == 0 {
+		return
+	}
+	*tags = append(*tags, "non-canonical")
+	for _, l := range [][]string{s1, s2} {
+		for i := range l {
+			if g.Chance(0.6) {
+				l[i] = fancy(g, l[i])
+			}
+		}
+	}
+}
+
+// a member outside the property's quantifier, near a voxel: malformed string, zoom outside 0..35, or an index outside the range of its zoom
+// (negative x / y, x or y >= 2^h, |f| beyond 2^v, the int64 extremes). Only model/implementation agreement and the per-member fallback are
+// checked on such cases; they are marked trivial. Extended zoom fields stay <= 62 (above, int64(math.Pow(2,|dz|)) saturates: refused by the dispatch).
+func outsideMember(g *Gen, e vox, sid bool) (string, string) {
+	switch k := g.Intn(20); {
+	case k < 9:
+		return malformedNear(g, e, sid), "malformed"
+	case k < 13:
+		if sid {
+			e.h = hostileSpatialZoom(g)
+			return e.sid(), "hostile-zoom"
+		}
+		switch g.Intn(3) {
+		case 0:
+			e.h = hostileZoom(g)
+		case 1:
+			e.v = hostileZoom(g)
+		default:
+			e.h, e.v = hostileZoom(g), hostileZoom(g)
+		}
+		return e.ext(), "hostile-zoom"
+	}
+	switch g.Intn(8) {
+	case 0:
+		e.x = -e.x - 1
+	case 1:
+		e.y += pow2(e.h) * (1 + g.Int63n(3))
+	case 2:
+		e.x, e.y = e.x+pow2(e.h), -1-g.Int63n(1<<20)
+	case 3:
+		e.x = -1 << 63
+	case 4:
+		if sid {
+			e.y = 1<<63 - 1
+		} else { // NOT MaxInt64 in the extended form: the loops `for v := min; v <= max; v++` of the zoom change never end there (reported defect)
+			e.y = 1<<63 - 2
+		}
+	case 5:
+		if sid {
+			e.y = -e.y - 2
+		} else {
+			e.f = pow2(e.v) + g.Int63n(pow2(e.v)+1)
+		}
+	case 6:
+		if sid {
+			e.x = 1<<62 + e.x
+		} else {
+			e.f = -pow2(e.v) - 1 - g.Int63n(pow2(e.v)+1)
+		}
+	default:
+		if sid {
+			e.x, e.y = e.y-pow2(e.h), e.x+pow2(e.h)
+		} else {
+			e.f = g.Pick(-1<<63, 1<<63-2, -1<<62)
+		}
+	}
+	if sid {
+		return e.sid(), "xy-out-of-range"
+	}
+	return e.ext(), "index-out-of-range"
+}
+
+// with probability p: put one outside-the-quantifier member into one of the lists (replace a member; or insert when allowed). Reports whether it did.
+func spoilOutside(g *Gen, p float64, s1, s2 *[]string, near vox, sid, insertOK bool, tags *[]string) bool {
+	if !g.Chance(p) {
+		return false
+	}
+	m, tag := outsideMember(g, near, sid)
+	l := s1
+	if g.Chance(0.5) {
+		l = s2
+	}
+	if len(*l) == 0 && !insertOK {
+		if l == s1 {
+			l = s2
+		} else {
+			l = s1
+		}
+	}
+	if len(*l) > 0 && (!insertOK || g.Chance(0.5)) {
+		(*l)[g.Intn(len(*l))] = m
+	} else if insertOK {
+		i := g.Intn(len(*l) + 1)
+		r := append([]string{}, (*l)[:i]...)
+		r = append(r, m)
+		*l = append(r, (*l)[i:]...)
+	} else {
+		return false
+	}
+	*tags = append(*tags, tag)
+	return true
+}
 
 // ---------------------------------------------------------------------------------------------------------------------------------
 // lists
@@ -582,6 +787,26 @@ func shuffle(g *Gen, l []vox) {
 
 // a pair of voxel lists (0..5 each) in which related pairs, nested members in both orders, duplicates and empty sides are frequent
 func listPair(g *Gen, spatial bool, tags *[]string) ([]vox, []vox) {
+	n1, n2 := 1+g.Intn(5), 1+g.Intn(5)
+	switch g.Intn(16) {
+	case 0:
+		n1 = 0
+	case 1:
+		n2 = 0
+	case 2:
+		n1, n2 = 0, 0
+	}
+	if g.Chance(0.03) { // long lists: deep shared prefixes, many siblings under one node (the extended form is quadratic: kept shorter)
+		if spatial {
+			n1, n2 = 20+g.Intn(41), 10+g.Intn(31)
+		} else {
+			n1, n2 = 10+g.Intn(16), 6+g.Intn(15)
+		}
+		*tags = append(*tags, "long-lists")
+	}
+	return listPairN(g, spatial, n1, n2, tags)
+}
+func listPairN(g *Gen, spatial bool, n1, n2 int, tags *[]string) ([]vox, []vox) {
 	rv := func() vox {
 		if spatial {
 			return randSVox(g)
@@ -594,15 +819,6 @@ func listPair(g *Gen, spatial bool, tags *[]string) ([]vox, []vox) {
 			return deriveSVox(g, a, &t)
 		}
 		return deriveVox(g, a, &t)
-	}
-	n1, n2 := 1+g.Intn(5), 1+g.Intn(5)
-	switch g.Intn(16) {
-	case 0:
-		n1 = 0
-	case 1:
-		n2 = 0
-	case 2:
-		n1, n2 = 0, 0
 	}
 	var l1, l2 []vox
 	for len(l1) < n1 {
@@ -624,6 +840,11 @@ func listPair(g *Gen, spatial bool, tags *[]string) ([]vox, []vox) {
 		default:
 			l2 = append(l2, rv())
 		}
+	}
+	if !spatial && n1 > 0 && n2 > 0 && g.Chance(0.15) { // a pair around a negative exact multiple (see negMultiplePair)
+		var t []string
+		a, b := negMultiplePair(g, &t)
+		l1[g.Intn(n1)], l2[g.Intn(n2)] = a, b
 	}
 	if g.Chance(0.3) {
 		shuffle(g, l1)
@@ -731,19 +952,17 @@ func featureTags(l1, l2 []vox, tags []string) []string {
 
 func call(fn string, a, b w.Val) w.Val { return w.L(w.S(fn), a, b) }
 
-// insert one malformed member at a random position of one of the two lists (the list is made non-empty)
-func spoil(g *Gen, s1, s2 []string, near vox, sid bool) ([]string, []string) {
-	m := malformedNear(g, near, sid)
-	ins := func(l []string) []string {
-		i := g.Intn(len(l) + 1)
-		r := append([]string{}, l[:i]...)
-		r = append(r, m)
-		return append(r, l[i:]...)
+// list lengths for the distribution tags: exact up to 6, then buckets
+func lenBucket(n int) int {
+	switch {
+	case n <= 6:
+		return n
+	case n <= 12:
+		return 12
+	case n <= 30:
+		return 30
 	}
-	if g.Chance(0.5) {
-		return ins(s1), s2
-	}
-	return s1, ins(s2)
+	return 60
 }
 
 // ---------------------------------------------------------------------------------------------------------------------------------
@@ -812,7 +1031,8 @@ func init() {
 		exhaustive(g.Tier == "thorough", emit)
 		// fixed witnesses first: the inputs on which independently seeded changes differ, and the repaired defects D1/D4/D5/D6
 		fixedExt := [][2]string{{"16/58209/25805/17/3", "16/58209/25805/16/1"}, {"4/14/6/25/101", "5/28/12/24/50"}, {"10/909/403/30/-3", "10/909/403/28/-1"},
-			{"1/0/0/2/-1", "1/0/0/1/0"}, {"1/0/0/2/-1", "1/0/0/1/-1"}, {"0/0/0/0/0", "35/34359738367/0/35/-34359738368"}, {"0/0/0/0/-1", "35/0/0/35/-1"}}
+			{"1/0/0/2/-1", "1/0/0/1/0"}, {"1/0/0/2/-1", "1/0/0/1/-1"}, {"0/0/0/0/0", "35/34359738367/0/35/-34359738368"}, {"0/0/0/0/-1", "35/0/0/35/-1"},
+			{"20/5/7/25/-2", "20/5/7/24/-1"}, {"20/5/7/25/-2", "20/5/7/24/-2"}, {"20/5/7/25/-8", "20/5/7/22/-1"}, {"20/5/7/25/-8", "20/5/7/22/-2"}}
 		if os.Getenv("VERIF_C05_NOFIXED") != "" { // mutation self-test of the random generators alone
 			fixedExt = nil
 		}
@@ -840,39 +1060,30 @@ func init() {
 				if g.Chance(0.15) {
 					b = randVox(g)
 					tags = append(tags, "independent")
+				} else if g.Chance(0.2) {
+					a, b = negMultiplePair(g, &tags)
 				}
-				sa, sb := a.ext(), b.ext()
 				tags = featureTags([]vox{a}, []vox{b}, tags)
-				if g.Chance(0.04) {
-					if g.Chance(0.5) {
-						sa = malformedNear(g, a, false)
-					} else {
-						sb = malformedNear(g, b, false)
-					}
-					tags = []string{"malformed"}
-				} else if g.Chance(0.02) {
-					a.h = hostileZoom(g)
-					if g.Chance(0.5) {
-						a.v = hostileZoom(g)
-					}
-					sa = a.ext()
-					tags = []string{"hostile-zoom"}
+				s1, s2 := []string{a.ext()}, []string{b.ext()}
+				out := spoilOutside(g, 0.07, &s1, &s2, a, false, false, &tags)
+				if !out && g.Chance(0.02) { // the very same string on both sides
+					s2[0] = s1[0]
+					tags = append(tags, "same-string")
 				}
+				fancyLists(g, s1, s2, &tags)
 				if g.Chance(0.5) {
-					emit("CheckExtendedSpatialIdsOverlap", tags, false, w.S(sa), w.S(sb))
+					emit("CheckExtendedSpatialIdsOverlap", tags, out, w.S(s1[0]), w.S(s2[0]))
 				} else {
-					emit("OverlapBoth", append(tags, "pair"), false, w.Strs([]string{sa}), w.Strs([]string{sb}))
+					emit("OverlapBoth", append(tags, "pair"), out, w.Strs(s1), w.Strs(s2))
 				}
 			case k < 30: // extended array form
 				l1, l2 := listPair(g, false, &tags)
 				tags = featureTags(l1, l2, tags)
 				s1, s2 := exts(l1), exts(l2)
-				if g.Chance(0.04) {
-					s1, s2 = spoil(g, s1, s2, randVox(g), false)
-					tags = append(tags, "malformed")
-				}
-				tags = append(tags, Tag("len=%d,%d", len(s1), len(s2)))
-				emit("CheckExtendedSpatialIdsArrayOverlap", tags, len(s1) == 0 || len(s2) == 0, w.Strs(s1), w.Strs(s2))
+				out := spoilOutside(g, 0.08, &s1, &s2, randVox(g), false, true, &tags)
+				fancyLists(g, s1, s2, &tags)
+				tags = append(tags, Tag("len=%d,%d", lenBucket(len(s1)), lenBucket(len(s2))))
+				emit("CheckExtendedSpatialIdsArrayOverlap", tags, out || len(s1) == 0 || len(s2) == 0, w.Strs(s1), w.Strs(s2))
 			case k < 42: // spatial pairwise form
 				a := randSVox(g)
 				b := deriveSVox(g, a, &tags)
@@ -880,43 +1091,29 @@ func init() {
 					b = randSVox(g)
 					tags = append(tags, "independent")
 				}
-				if g.Chance(0.08) {
+				out := false
+				if g.Chance(0.08) { // a valid ID outside the altitude domain (zoom 0, |altitude| beyond 2^24 m): outside the quantifier, error expected
 					if g.Chance(0.5) {
 						a = outOfDomainSVox(g)
 					} else {
 						b = outOfDomainSVox(g)
 					}
 					tags = append(tags, "out-of-domain")
+					out = true
 				}
-				sa, sb := a.sid(), b.sid()
 				tags = featureTags([]vox{a}, []vox{b}, tags)
-				if g.Chance(0.04) {
-					if g.Chance(0.5) {
-						sa = malformedNear(g, a, true)
-					} else {
-						sb = malformedNear(g, b, true)
-					}
-					tags = []string{"malformed"}
+				s1, s2 := []string{a.sid()}, []string{b.sid()}
+				if spoilOutside(g, 0.09, &s1, &s2, a, true, false, &tags) {
+					out = true
 				} else if g.Chance(0.02) {
-					a.h = hostileZoom(g)
-					sa = a.sid()
-					tags = []string{"hostile-zoom"}
-				} else if g.Chance(0.02) { // x / y outside [0, 2^z): not a valid ID; the detector does not check them and the tree masks the bits
-					switch g.Intn(3) {
-					case 0:
-						a.x = -a.x - 1
-					case 1:
-						a.y += pow2(a.h) * (1 + g.Int63n(3))
-					default:
-						a.x, a.y = a.x+pow2(a.h), -1-g.Int63n(1<<20)
-					}
-					sa = a.sid()
-					tags = []string{"xy-out-of-range"}
+					s2[0] = s1[0]
+					tags = append(tags, "same-string")
 				}
+				fancyLists(g, s1, s2, &tags)
 				if g.Chance(0.5) {
-					sa, sb = sb, sa
+					s1, s2 = s2, s1
 				}
-				emit("CheckSpatialIdsOverlap", tags, false, w.S(sa), w.S(sb))
+				emit("CheckSpatialIdsOverlap", tags, out, w.S(s1[0]), w.S(s2[0]))
 			case k < 62: // spatial array form (radix tree): nested members in both orders, empty sides, out-of-domain members
 				var l1, l2 []vox
 				if g.Chance(0.3) {
@@ -924,24 +1121,29 @@ func init() {
 				} else {
 					l1, l2 = listPair(g, true, &tags)
 				}
+				out := false
 				if g.Chance(0.07) {
 					o := outOfDomainSVox(g)
-					if g.Chance(0.5) || len(l2) == 0 {
+					switch {
+					case g.Chance(0.2): // nothing stored, the second list is still validated
+						l1, l2 = nil, append(l2, o)
+					case g.Chance(0.5) || len(l2) == 0:
 						l1 = append(l1, o)
 						shuffle(g, l1)
-					} else {
+					default:
 						l2[g.Intn(len(l2))] = o
 					}
 					tags = append(tags, "out-of-domain")
+					out = true
 				}
 				tags = featureTags(l1, l2, tags)
 				s1, s2 := sids(l1), sids(l2)
-				if g.Chance(0.04) {
-					s1, s2 = spoil(g, s1, s2, randSVox(g), true)
-					tags = append(tags, "malformed")
+				if spoilOutside(g, 0.09, &s1, &s2, randSVox(g), true, true, &tags) {
+					out = true
 				}
-				tags = append(tags, Tag("len=%d,%d", len(s1), len(s2)))
-				emit("CheckSpatialIdsArrayOverlap", tags, len(s1) == 0 || len(s2) == 0, w.Strs(s1), w.Strs(s2))
+				fancyLists(g, s1, s2, &tags)
+				tags = append(tags, Tag("len=%d,%d", lenBucket(len(s1)), lenBucket(len(s2))))
+				emit("CheckSpatialIdsArrayOverlap", tags, out || len(s1) == 0 || len(s2) == 0, w.Strs(s1), w.Strs(s2))
 			case k < 82: // both argument orders, both implementations
 				var l1, l2 []vox
 				hv := g.Chance(0.6)
@@ -950,21 +1152,22 @@ func init() {
 				} else {
 					l1, l2 = listPair(g, hv, &tags)
 				}
+				out := false
 				if hv {
 					tags = append(tags, "h=v")
 					if g.Chance(0.06) && len(l1) > 0 {
 						l1[g.Intn(len(l1))] = outOfDomainSVox(g)
-						tags = append(tags, "out-of-domain")
+						tags = append(tags, "out-of-domain") // valid as an extended ID: the two extended answers are still fully checked
 					}
 				}
 				tags = featureTags(l1, l2, tags)
 				s1, s2 := exts(l1), exts(l2)
-				if g.Chance(0.03) {
-					s1, s2 = spoil(g, s1, s2, randSVox(g), false)
-					tags = append(tags, "malformed")
+				if spoilOutside(g, 0.05, &s1, &s2, randSVox(g), false, true, &tags) {
+					out = true
 				}
-				tags = append(tags, Tag("len=%d,%d", len(s1), len(s2)))
-				emit("OverlapBoth", tags, len(s1) == 0 || len(s2) == 0, w.Strs(s1), w.Strs(s2))
+				fancyLists(g, s1, s2, &tags)
+				tags = append(tags, Tag("len=%d,%d", lenBucket(len(s1)), lenBucket(len(s2))))
+				emit("OverlapBoth", tags, out || len(s1) == 0 || len(s2) == 0, w.Strs(s1), w.Strs(s2))
 			case k >= 85 && k < 88: // the radix-tree library by itself
 				ks, qs := treeCase(g, &tags)
 				emit("RadixTree", append(tags, "tree"), false, ks, qs)
@@ -972,17 +1175,20 @@ func init() {
 				a := randSVox(g)
 				s := a.sid()
 				tags = []string{"well-formed"}
-				switch g.Intn(4) {
+				triv := false
+				switch g.Intn(5) {
 				case 0:
 					s = malformedNear(g, a, true)
 					tags = []string{"malformed"}
-				case 1: // not a valid ID, but four integers
-					s = SID(hostileZoom(g), g.Int63n(1<<40)-(1<<39), g.Int63n(1<<40)-(1<<39), -g.Int63n(1<<40))
+					triv = true
+				case 1: // not a valid ID, but four integers: the parser must return them unchanged
+					s = SID(hostileSpatialZoom(g), g.Pick(-1<<63, 1<<63-1, g.Int63n(1<<40)-(1<<39)), g.Int63n(1<<40)-(1<<39), -g.Int63n(1<<40))
 					tags = []string{"hostile-zoom"}
-				case 2:
-					s = "+" + s
+				case 2, 3:
+					s = fancy(g, s)
+					tags = []string{"non-canonical"}
 				}
-				emit("getSpatialIdAttrs", tags, false, w.S(s))
+				emit("getSpatialIdAttrs", tags, triv, w.S(s))
 			default: // related consecutive calls
 				emit("OverlapSequence", []string{"sequence"}, false, sequence(g))
 			}
